@@ -15,6 +15,9 @@
 EXTENDS FP, Integers, Sequences, FiniteSets
 
 \* ---------------------------------------------------------------- round trip (C16)
+\* formats: "json" (JSON trait), "tagged" (the from_json entry point), "bincode" (the pickling state), and "pickle" - the
+\* protocol Python runs on a pyo3 class: cls.__new__ applied to x.__getnewargs__() (which must not raise: outcome
+\* "new_err"), then __setstate__(x.__getstate__()) on that object.  One rule for all of them.
 AllClose(a, b) == Len(a) = Len(b) /\ \A k \in 1..Len(a) : FClose(a[k], b[k], b[k])
 RoundTripOK(e) ==
   /\ e.o = "ok" /\ e.has_after
